@@ -11,8 +11,8 @@ from vlib.core import log
 from checks.c06 import dataset
 
 PID = "C11"
-LEAN_MODULE = "NunVerif.Props.C11"
-THEOREMS = ["Nun.C11_complete_is_post", "Nun.C11_prefix_zero_is_pre", "Nun.C11_finding_keys_before_values", "Nun.C11_finding_torn_inplace_update",
+LEAN_MODULE = "NunVerif.Props.C11Fix"
+THEOREMS = ["Nun.C11_keys_file_never_without_values_file", "Nun.snapshotOps_keep_values", "Nun.applyOps_keeps", "Nun.C11_complete_is_post", "Nun.C11_prefix_zero_is_pre", "Nun.C11_finding_keys_before_values", "Nun.C11_finding_torn_inplace_update",
             "Nun.C11_finding_reclaim_deletes_first", "Nun.C11_witness_traces"]
 
 SETUP = ["RESET", "SESS 1", "C 1 auth adm pw", "C 1 create-db t tok newer", "C 1 use-db t tok"]
